@@ -474,11 +474,19 @@ func IsNil(info *types.Info, e ast.Expr) bool { return isNilIdent(info, e) }
 
 // ObjOf returns the object an identifier expression refers to (variable, function…), or nil.
 func ObjOf(info *types.Info, e ast.Expr) types.Object {
-	if id, ok := ast.Unparen(e).(*ast.Ident); ok {
-		if o := info.Uses[id]; o != nil {
+	switch x := ast.Unparen(e).(type) {
+	case *ast.Ident:
+		if o := info.Uses[x]; o != nil {
 			return o
 		}
-		return info.Defs[id]
+		return info.Defs[x]
+	case *ast.SelectorExpr:
+		// qualified identifier pkg.Name
+		if id, ok := x.X.(*ast.Ident); ok {
+			if _, isPkg := info.Uses[id].(*types.PkgName); isPkg {
+				return info.Uses[x.Sel]
+			}
+		}
 	}
 	return nil
 }
